@@ -74,6 +74,12 @@ def texts():
 PREFIXES = [b"", b"use a;", b"use a;\nuse b;", b"// p"]
 
 
+def prefix_line(p):
+    """what generate_prefix_header prints (codegen/src/header.rs); the byte comparison of the
+    destinations below fails if the real one differs"""
+    return b"// CRC-32/ISO-HDLC of the prefix: %08x\n" % zlib.crc32(p)
+
+
 def check(out, ctx):
     rnd = random.Random(ctx.seed * 31 + 18)
     front = os.path.join(ctx.bin, "front")
@@ -91,6 +97,11 @@ def check(out, ctx):
             code = o[5:].rstrip("\n").encode() if o.startswith("CODE\n") else None
             info[k] = (t, h, code)
             reg.append("bsreg\t%s\t%s\t%s\t%s" % (k, t.hex(), h.hex(), code.hex() if code is not None else "-"))
+        # a prefix with the same CRC-32 as another one
+        pcoll = collide(zlib.crc32(PREFIXES[1]), b"// ", tail=b"")
+        prefixes = PREFIXES + ([pcoll] if pcoll else [])
+        for p in prefixes:
+            reg.append("bspfx\t%s\t%s" % (p.hex(), prefix_line(p).hex()))
         nh = 60 if ctx.tier == "quick" else 600
         hist = []
         # directed histories first (corpus): prefix shrink, CRC collision, failing runs, delete
@@ -101,6 +112,8 @@ def check(out, ctx):
         hist.append(["E1", "R", "Ey", "R", "R", "E1", "R"])
         hist.append(["Ek", "R", "El", "R", "Ek", "R", "R"])
         hist.append(["E2", "P" + PREFIXES[1].hex(), "R", "Ez", "R", "R", "Ey", "R", "E2", "R"])
+        if pcoll:
+            hist.append(["E1", "P" + PREFIXES[1].hex(), "R", "P" + pcoll.hex(), "R"])
         for _ in range(nh):
             ops = []
             for _ in range(rnd.randint(3, 12)):
@@ -108,7 +121,7 @@ def check(out, ctx):
                 if r < 0.3:
                     ops.append("E" + rnd.choice(["1", "2", "x", "y", "z", "c", "-", "1", "2", "k", "l"]))
                 elif r < 0.5:
-                    ops.append("P" + rnd.choice(PREFIXES).hex())
+                    ops.append("P" + rnd.choice(prefixes).hex())
                 elif r < 0.6:
                     ops.append("D")
                 else:
@@ -168,11 +181,11 @@ def check(out, ctx):
                     if after is None:
                         origin = None
                     if res == "OK" and cur_text is not None and info[cur_text][2] is not None:
-                        want = info[cur_text][1] + b"\n" + prefix + b"\n" + info[cur_text][2]
+                        want = info[cur_text][1] + prefix_line(prefix) + b"\n" + prefix + b"\n" + info[cur_text][2]
                         if after != want:
-                            if not wrote and origin is not None and origin[0] != cur_text and \
-                                    zlib.crc32(T[origin[0]]) == zlib.crc32(T[cur_text]):
-                                key = "c18:crc-collision"   # the two texts really have the same CRC-32 over their bytes
+                            if not wrote and origin is not None and origin != (cur_text, prefix) and \
+                                    zlib.crc32(T[origin[0]]) == zlib.crc32(T[cur_text]) and zlib.crc32(origin[1]) == zlib.crc32(prefix):
+                                key = "c18:crc-collision"   # grammar texts and prefixes really have the same CRC-32 over their bytes
                             elif not wrote and origin is not None and origin[1] != prefix and origin[1].startswith(prefix):
                                 key = "c18:prefix-shrink"
                             else:
@@ -202,8 +215,37 @@ def check(out, ctx):
                 nontrivial.add(tuple(ops))
             if hi < 4:
                 samples.append({"history": ops, "mode": mode, "runs": trace})
+        # formatting (implementation only; the model's fmt is a parameter): a destination written with
+        # format() is left untouched by the next run whatever rustfmt did to the prefix, and switching
+        # formatting off does not make it stale
+        fmt_runs = 0
+        if shutil.which("rustfmt"):
+            import time
+            for pi, p in enumerate([b"use a;use b;", b"use   a ;\n\n\nuse b;", b"", b"use a;"]):
+                d = os.path.join(tmp, "f%d" % pi)
+                os.makedirs(d)
+                src = os.path.join(d, "g.ebnf")
+                dst = os.path.join(d, "g.rs")
+                open(src, "wb").write(T["1"])
+
+                def crun(fmt):
+                    return vp.pipe_lines(ctx.direct, ["compile\tfile\t%s\t-\t%d\t%s" % (src, fmt, p.hex())])[0].split("\t")[0]
+                r1 = crun(1)
+                if r1 != "OK" or not os.path.exists(dst):
+                    out.violation("c18:format-run:%d" % pi, "Compile with format() failed on a valid grammar (prefix %r): %s" % (p, r1), {"prefix": repr(p)})
+                    continue
+                m1, b1 = os.stat(dst).st_mtime_ns, open(dst, "rb").read()
+                time.sleep(0.05)
+                r2, r3 = crun(1), crun(0)
+                m2, b2 = os.stat(dst).st_mtime_ns, open(dst, "rb").read()
+                fmt_runs += 3
+                if (r2, r3) != ("OK", "OK") or m2 != m1 or b2 != b1:
+                    out.violation("c18:format-rewrites:%d" % pi,
+                                  "a destination written with format() and prefix %r is rewritten by the next run although grammar, prefix and library did not change" % p,
+                                  {"prefix": repr(p), "results": [r1, r2, r3], "rewritten": m2 != m1, "content_changed": b2 != b1,
+                                   "history": "run(format); run(format); run(no format)"})
         out.coverage.update({
-            "evaluations": runs, "distinct_nontrivial": len(nontrivial),
+            "evaluations": runs, "distinct_nontrivial": len(nontrivial), "format_runs": fmt_runs,
             "rule": "random histories (3..12 ops) of {edit grammar to one of 2 valid / 1 syntax-invalid / 2 generator-rejected / 1 CRC-colliding text or make it unreadable, change prefix (4 prefixes incl. one that is a prefix of another), delete destination, run} in file mode, explicit-destination mode and directory mode, plus 7 directed histories; evaluations = runs of Compile; non-trivial = history of >= 4 ops; distinct by op sequence",
             "samples": samples, "histories": len(hist), "model_vs_implementation_disagreements": disagree,
             "known_stale_destinations_seen": stale_known,
